@@ -475,7 +475,7 @@ fn minimise(
     if let Some(r) = pinned.first() {
         if let (Some(c), Some(v)) = (
             r.case.clone(),
-            r.violations.iter().find(|v| v.kind == best_v.kind),
+            r.violations.iter().find(|v| same_class(v, &best_v)),
         ) {
             best = c;
             best_v = v.clone();
@@ -503,7 +503,7 @@ fn minimise(
             if r.harness_error.is_some() {
                 continue;
             }
-            if r.violations.iter().any(|v| v.kind == best_v.kind) {
+            if r.violations.iter().any(|v| same_class(v, &best_v)) {
                 let size = r.case.as_ref().map(case_size).unwrap_or(usize::MAX);
                 if pick.map_or(true, |(s, _)| size < s) {
                     pick = Some((size, r));
@@ -519,7 +519,7 @@ fn minimise(
                     best_v = r
                         .violations
                         .iter()
-                        .find(|v| v.kind == best_v.kind)
+                        .find(|v| same_class(v, &best_v))
                         .cloned()
                         .unwrap();
                     best_h = r.hash;
@@ -549,6 +549,10 @@ fn summarise(d: &str) -> String {
     let mut s: String = d.chars().filter(|c| !c.is_ascii_digit()).collect();
     s.truncate(60);
     s
+}
+
+fn same_class(a: &Violation, b: &Violation) -> bool {
+    a.kind == b.kind && summarise(&a.detail) == summarise(&b.detail)
 }
 
 fn case_size(c: &Case) -> usize {
